@@ -204,7 +204,7 @@ def rule_E2(ctx):
             return (True, 'n/a')
         fa = ctx.R.analyse(f, c)
         vcalls = [x for x in own_walk(f.node) if isinstance(x, ast.Call) and isinstance(x.func, ast.Attribute)
-                  and x.func.attr == '_validate_slice']
+                  and x.func.attr in m.validators]
         vline = min((x.lineno for x in vcalls), default=None)
         res = (True, 'validated' if vcalls else 'forwarded')
         # every normal exit must come after the validation (or after the forwarding call): no early `return` that skips it
@@ -415,7 +415,7 @@ def rule_E7(ctx):
         for x in own_walk(c.node):
             if isinstance(x, ast.If) and G.exits(x.body) and 'ReadError' in G.raises_in(x.body) and isinstance(x.test, ast.Compare):
                 txt = ast.unparse(x.test)
-                if 'len(bs)' in txt and 'start' in txt and x.lineno < sl.lineno:
+                if f'len({c.params()[0]})' in txt and c.params()[1] in txt and x.lineno < sl.lineno:
                     good = x
         if good is None:
             r.fail(c.key, f'read {norm(sl)}', 'this fixed-length reader slices past the end silently (the getter then fails with ValueError/'
@@ -538,10 +538,10 @@ def rule_D2(ctx):
     lc = [c for c in children if c.name == 'length_checked_get_fn']
     if len(lc) != 1:
         raise AnalysisError('length_checked_get_fn closure not found')
-    g = [x for x in own_walk(lc[0].node) if isinstance(x, ast.If) and isinstance(x.test, ast.Compare) and 'len(bs)' in ast.unparse(x.test)
+    g = [x for x in own_walk(lc[0].node) if isinstance(x, ast.If) and isinstance(x.test, ast.Compare) and f'len({lc[0].params()[0]})' in ast.unparse(x.test)
          and isinstance(x.test.ops[0], ast.NotEq) and G.raises_in(x.body)]
     if not g:
-        r.fail(lc[0].key, 'length != len(bs) check', 'a codeword followed by extra bits must not be accepted as a single value through the '
+        r.fail(lc[0].key, 'length != len(<bits>) check', 'a codeword followed by extra bits must not be accepted as a single value through the '
                'whole-bitstring property', loc=lc[0].loc())
     else:
         r.ok(lc[0].key, {'instance': lc[0].key, 'guard': norm(g[0].test)})
